@@ -93,7 +93,14 @@ func (x *runCtx) runDependent(codec string) {
 // ---------------------------------------------------------------------------
 // the two command line tools
 
-func useTools(c *runner.Ctx, idx int) bool { return idx%50 == 7 }
+// useTools: 2 % of the cases; a chain-ue case holds all variants of one
+// position (one of them goes to the tools), so every 10th case.
+func useTools(c *runner.Ctx, kind string, idx int) bool {
+	if kind == "chain-ue" {
+		return idx%10 == 7
+	}
+	return idx%50 == 7
+}
 
 const toolWallTimeout = 30 * time.Second
 const toolCPUBudget = 6 * time.Second
